@@ -333,22 +333,28 @@ func (e SliceErr) Is(target error) bool {
 	return target == ErrInjected
 }
 
-// StagedReader is a connection wrapper that embeds the buffer it stages
-// incoming bytes in: Len() (promoted from bytes.Buffer) says how much is
-// staged right now, not how much the stream still holds.
+// StagedReader is a connection wrapper that stages incoming bytes in a
+// buffer of its own and has a Len() method that says how much is staged
+// right now, not how much the stream still holds. It offers Read and Len
+// only: were the buffer embedded, its ReadByte, WriteTo, ... would be
+// promoted and would see the staged bytes alone, which breaks the contracts
+// of those interfaces (that would be the wrapper's bug, not the library's).
 type StagedReader struct {
-	*bytes.Buffer
+	buf   bytes.Buffer
 	Src   []byte
 	Chunk int
 	pos   int
 }
 
 func NewStagedReader(data []byte, chunk int) *StagedReader {
-	return &StagedReader{Buffer: &bytes.Buffer{}, Src: data, Chunk: chunk}
+	return &StagedReader{Src: data, Chunk: chunk}
 }
 
+// Len reports the bytes staged at the moment.
+func (s *StagedReader) Len() int { return s.buf.Len() }
+
 func (s *StagedReader) Read(p []byte) (int, error) {
-	if s.Buffer.Len() == 0 {
+	if s.buf.Len() == 0 {
 		if s.pos >= len(s.Src) {
 			return 0, io.EOF
 		}
@@ -356,14 +362,14 @@ func (s *StagedReader) Read(p []byte) (int, error) {
 		if n > len(s.Src)-s.pos {
 			n = len(s.Src) - s.pos
 		}
-		s.Buffer.Write(s.Src[s.pos : s.pos+n])
+		s.buf.Write(s.Src[s.pos : s.pos+n])
 		s.pos += n
 	}
-	return s.Buffer.Read(p)
+	return s.buf.Read(p)
 }
 
 // Consumed is the number of stream bytes handed out so far.
-func (s *StagedReader) Consumed() int { return s.pos - s.Buffer.Len() }
+func (s *StagedReader) Consumed() int { return s.pos - s.buf.Len() }
 
 // ---------------------------------------------------------------- meter
 
